@@ -74,7 +74,10 @@ def main(tier):
     chk.rule("LOCK", "lock_outputs reads conflicts and writes in one transaction", floor=1)
     chk.rule("PS-1", "sibling pool code is a consistent renaming", floor=300)
     chk.rule("PS-3", "pool-tagged arguments bind the same pool's parameters", floor=10)
-    chk.rule("control", "positive controls", floor=1)
+    chk.rule("CONF", "the send-max query cannot return a note that lacks the policy's confirmations",
+             floor=1)
+    chk.rule("ANCHOR", "anchor and confirmations policy given to the selector are one policy's", floor=2)
+    chk.rule("control", "positive controls", floor=2)
     ps_rules.ps1(chk, FILES)
     w = zf.World(extract.facts_dir("all"), ["zcash_client_backend", "zcash_client_sqlite"])
 
@@ -126,6 +129,8 @@ def main(tier):
     double_spend(chk, w, ms)
     splice(chk, w)
     lock(chk, w)
+    confirmations(chk, w)
+    chk.analysed["selector_calls"] = anchor_policy(chk, w)
     chk.ok("control", "Step::from_parts has %d rejection kinds and %d success site(s)"
            % (len(STEP_REJECTIONS), len(succ))) if succ else \
         chk.fail("control", "no-success", "Step::from_parts has no success site")
@@ -225,6 +230,7 @@ def double_spend(chk, w, ms):
     present) is a double-spend error"""
     body = ms.body
     du = defuse.DefUse(body)
+    cyc = sqlfx.cyclic_blocks(body)
     ins = [(bb, t) for bb, t in body.calls() if t.callee.indirect is None and
            re.search(r"BTreeSet::<.*>::insert$|BTreeSet<.*>::insert$", t.callee.target_p())]
     n = 0
@@ -235,6 +241,15 @@ def double_spend(chk, w, ms):
         if not which:
             continue
         n += 1
+        # the set lives across all steps: it is created before the loop over the steps
+        sl = _ref_local(body, du, t.args[0])
+        created = [d for d in du.defs.get(sl, [])] if sl is not None else []
+        if created and all(k == "call" and bi not in cyc for k, bi, _x in created):
+            chk.ok("VC-3", "multi_step: %s is created once, before the loop over the steps" % which[0])
+        else:
+            chk.fail("VC-3", "multi_step/set-lifetime/%s" % which[0], "the set %s that detects repeated "
+                     "inputs is (re)created inside the loop over the steps: an input used by two "
+                     "different steps is not detected" % which[0], t.span.loc())
         res = S.after_call(body, bb, S.B(False))
         rets = {rv for _b, rv in res.returns} if res else {"?"}
         aggs = {a.rv.agg[2] for _b, a in res.aggs if a.rv.agg[1] == PERR} if res else set()
@@ -250,6 +265,170 @@ def double_spend(chk, w, ms):
         chk.fail("VC-3", "multi_step/insert-sites", "only %d consumed-set insertions in multi_step "
                  "(prior-step outputs, transparent inputs and shielded inputs are expected)" % n,
                  ms.span.loc())
+
+
+def _ref_local(body, du, op):
+    """the local behind `&mut local` (through reborrows)"""
+    n = 0
+    while op is not None and op.kind in ("copy", "move") and n < 8:
+        n += 1
+        d = du.single(op.place.local)
+        if d is None or d[0] != "stmt":
+            return None
+        rv = d[2].rv
+        if rv.kind in ("ref", "raw"):
+            if not rv.place.proj:
+                return rv.place.local
+            if tuple(rv.place.proj) == ("*",):
+                op = zf.Op("copy", zf.Place([rv.place.local]))
+                continue
+            return None
+        if rv.kind == "use":
+            op = rv.ops[0]
+            continue
+        return None
+    return None
+
+
+def confirmations(chk, w):
+    """select_unspent_notes (the send-max query): a note whose transaction does not have the
+    confirmations the policy requires, and which the wallet has not marked witness-stabilized, is
+    never returned to a Spendable / UnspentOrError request.  Decided on the MIR of the row
+    decision closure by assuming the policy test fails and the row flag is false."""
+    f = w.by_p.get("zcash_client_sqlite::wallet::common::select_unspent_notes", [])
+    if len(f) != 1:
+        chk.fail("CONF", "select_unspent_notes/missing", "select_unspent_notes not found")
+        return
+    f = f[0]
+    clos = [g for g in w.fns.values() if g.is_closure() and g.root == f.id]
+    # the row mapper: which tuple position carries the witness_stabilized column
+    pos = None
+    for g in clos:
+        du = defuse.DefUse(g.body)
+        for blk in g.body.blocks:
+            for s in blk.stmts:
+                if s.kind == "=" and s.rv.kind == "agg" and s.rv.agg[0] == "tuple" and len(s.rv.ops) >= 3:
+                    for i, o in enumerate(s.rv.ops):
+                        if "'witness_stabilized'" in defuse.show(du.origin(o)):
+                            pos = i
+    dec = [g for g in clos if any(t.callee.indirect is None and
+                                  t.callee.target_p().endswith("::confirmations_until_spendable")
+                                  for _bb, t in g.body.calls())]
+    if pos is None or len(dec) != 1:
+        chk.fail("CONF", "shape", "row mapper / decision closure of select_unspent_notes not "
+                 "recognised (flag position %s, decision closures %d)" % (pos, len(dec)), f.span.loc())
+        return
+    g = dec[0]
+    b = g.body
+    du = defuse.DefUse(b)
+    inject = {}
+    # policy test: `confirmations_until_spendable(..) == 0` is false
+    for bi, blk in enumerate(b.blocks):
+        for si, s in enumerate(blk.stmts):
+            if s.kind == "=" and s.rv.kind == "bin" and s.rv.op in ("Eq", "Ne"):
+                o = [defuse.show(du.origin(x)) for x in s.rv.ops]
+                if o[0].startswith("confirmations_until_spendable(") and o[1] == "0":
+                    inject[(bi, si)] = S.B(s.rv.op == "Ne")
+            # the row's witness_stabilized flag is false
+            if s.kind == "=" and s.rv.kind == "use" and s.rv.ops[0].kind in ("copy", "move") and \
+                    s.ty == "bool" and s.rv.ops[0].place.proj and \
+                    s.rv.ops[0].place.proj[-1] == ".%d" % pos and \
+                    re.search(r"Continue\)\.0\.%d$" % pos, defuse.show(du.origin(s.rv.ops[0]))):
+                inject[(bi, si)] = S.B(False)
+    if len(inject) < 2:
+        chk.fail("CONF", "anchors", "policy test or witness_stabilized binding not found in the "
+                 "decision closure (%d of 2)" % len(inject), g.span.loc())
+        return
+    # request kinds that demand eligibility
+    names = [v["name"] for v in (w.adts.get("zcash_client_sqlite::wallet::common::NoteRequest") or
+                                 {"variants": []})["variants"]]
+    facts = {}
+    for bi, blk in enumerate(b.blocks):
+        t = blk.term
+        if t.kind == "switch" and t.discr.kind in ("copy", "move") and not t.discr.place.proj:
+            for s in blk.stmts:
+                if s.kind == "=" and s.place.local == t.discr.place.local and s.rv.kind == "disc":
+                    ty = b.local_ty(s.rv.place.local) if not s.rv.place.proj else ""
+                    o = defuse.show(du.origin_place(s.rv.place))
+                    if "NoteRequest" in ty or "NoteRequest" in o or re.search(r"arg0\.\d+", o):
+                        key = S._disc_key(b, du, bi, t.discr.place.local)
+                        arms = {names[v] for v, _t in t.arms if isinstance(v, int) and v < len(names)}
+                        if key and "Unspent" in names and ("Spendable" in arms or "Unspent" in arms
+                                                           or "UnspentOrError" in arms):
+                            facts[key] = frozenset(i for i, n_ in enumerate(names) if n_ != "Unspent")
+    if not facts:
+        chk.fail("CONF", "request-kind", "the decision closure does not branch on the NoteRequest kind",
+                 g.span.loc())
+        return
+
+    def some_reached(inj):
+        res = S.explore(b, 0, {}, inject=inj, du=du, facts=dict(facts))
+        if res is None or res.too_big:
+            return None
+        return [a for _bb, a in res.aggs if a.rv.agg[1] == "core::option::Option" and a.rv.agg[2] == "Some"
+                and a.ty.startswith("core::option::Option<zcash_client_backend::wallet::ReceivedNote")]
+    got = some_reached(inject)
+    ctl = some_reached({})
+    if got is None or ctl is None:
+        chk.fail("CONF", "undecided", "exploration too large", g.span.loc())
+        return
+    if ctl:
+        chk.ok("control", "with the policy test unconstrained the note IS returned (the analysis "
+               "sees the success path)")
+    if not got and ctl:
+        chk.ok("CONF", "select_unspent_notes: without the policy's confirmations and without the "
+               "witness_stabilized flag no note is returned to a Spendable/UnspentOrError request",
+               sample=True)
+    elif not ctl:
+        chk.fail("control", "conf-blind", "the success path of the decision closure is not seen")
+    else:
+        chk.fail("CONF", "select_unspent_notes/bypass", "a note is returned as spendable although "
+                 "confirmations_until_spendable(..) != 0 and the row is not witness_stabilized: the "
+                 "confirmations policy can be bypassed on the send-max path", got[0].span.loc())
+
+
+def anchor_policy(chk, w):
+    """wherever a caller supplies both an anchor height and a confirmations policy to
+    InputSelector::propose_transaction, the two come from the same policy value: the anchor is
+    either that policy's anchor_height(..) or the wallet's anchor for that policy's confirmation
+    count.  Otherwise note eligibility and the proposal's anchor drift apart."""
+    n = 0
+    for f in sorted(w.fns.values(), key=lambda f: f.p):
+        if vc.is_test(f) or not f.p.startswith("zcash_client_backend::data_api::wallet"):
+            continue
+        du = None
+        for bb, t in f.body.calls():
+            if f.body.blocks[bb].cleanup or t.callee.indirect is not None:
+                continue
+            if not t.callee.target_p().endswith("InputSelector::propose_transaction") and \
+                    not (t.callee.p or "").endswith("InputSelector::propose_transaction"):
+                continue
+            tg = [w.fns[m] for m in w.trait_impls.get(t.callee.id, []) if m in w.fns]
+            argn = tg[0].argnames if tg else None
+            if not argn or "anchor_height" not in argn or "confirmations_policy" not in argn:
+                continue
+            du = du or defuse.DefUse(f.body)
+            ia, ip = argn.index("anchor_height"), argn.index("confirmations_policy")
+            oa, op_ = du.origin(t.args[ia]), du.origin(t.args[ip])
+            pol = defuse.show(defuse.strip_refs(op_))
+            anc = defuse.show(oa)
+            n += 1
+            m = re.search(r"anchor_height\(&?\*?([^,]+), ", anc)
+            src = m.group(1) if m else None
+            if src is None and "get_target_and_anchor_heights(" in anc:
+                gt = S.find_calls(f.body, r"::get_target_and_anchor_heights$")
+                if len(gt) == 1 and len(gt[0][1].args) == 2:
+                    m2 = re.match(r"(.+)\.trusted$", defuse.show(du.origin(gt[0][1].args[1])))
+                    src = m2.group(1) if m2 else None
+            if src is not None and src.lstrip("&*") == pol.lstrip("&*"):
+                chk.ok("ANCHOR", "%s: anchor and confirmations policy passed to the selector come "
+                       "from the same policy (%s) [%s]" % (f.p.rsplit("::", 1)[-1], pol, t.span.loc()),
+                       sample=True)
+            else:
+                chk.fail("ANCHOR", "%s#%d" % (f.p, n), "the selector is given the anchor %s but the "
+                         "confirmations policy %s: notes are judged eligible under one policy and "
+                         "anchored under another" % (anc[:90], pol[:60]), t.span.loc())
+    return n
 
 
 def splice(chk, w):
